@@ -1,11 +1,15 @@
 package dgram
 
 import (
+	"bufio"
 	"errors"
 	"fmt"
 	"io"
 	"net"
+	"os"
 	"runtime"
+	"strconv"
+	"strings"
 	"syscall"
 	"time"
 	"unsafe"
@@ -289,4 +293,45 @@ func allZero(b []byte) bool {
 		}
 	}
 	return true
+}
+
+// udpPortInodes: the inodes of the UDP sockets of this network namespace (IPv4 and
+// IPv6) bound to the port, whoever owns them. (/proc/net/udp may list a socket more
+// than once while the table changes, hence a set.)
+func udpPortInodes(port int) map[uint64]bool {
+	set := map[uint64]bool{}
+	for _, f := range []string{"/proc/net/udp", "/proc/net/udp6"} {
+		fh, err := os.Open(f)
+		if err != nil {
+			continue
+		}
+		sc := bufio.NewScanner(fh)
+		sc.Buffer(make([]byte, 1<<16), 1<<20)
+		for sc.Scan() {
+			fs := strings.Fields(sc.Text())
+			if len(fs) < 10 {
+				continue
+			}
+			i := strings.LastIndexByte(fs[1], ':')
+			if i < 0 {
+				continue
+			}
+			if v, err := strconv.ParseInt(fs[1][i+1:], 16, 32); err != nil || int(v) != port {
+				continue
+			}
+			if ino, err := strconv.ParseUint(fs[9], 10, 64); err == nil {
+				set[ino] = true
+			}
+		}
+		fh.Close()
+	}
+	return set
+}
+
+func inodeOf(fd int) uint64 {
+	var st unix.Stat_t
+	if unix.Fstat(fd, &st) != nil {
+		return 0
+	}
+	return st.Ino
 }
